@@ -1,11 +1,14 @@
 package props
 
 import (
+	"context"
 	"encoding/json"
 	"fmt"
 	"strings"
 
+	"github.com/gittuf/gittuf/internal/attestations"
 	"github.com/gittuf/gittuf/internal/policy"
+	"github.com/gittuf/gittuf/internal/signerverifier/dsse"
 	"github.com/gittuf/gittuf/pkg/githash"
 	"github.com/gittuf/gittuf/pkg/gitinterface"
 	"github.com/gittuf/gittuf/pkg/rsl"
@@ -23,7 +26,7 @@ import (
 // before writer A's k-th git subprocess the whole operation of writer B runs
 // (with B's own RSL cache swapped in). One pre-emption per case, k seeded.
 
-var c17gitKinds = []string{"record", "annotate", "stage"}
+var c17gitKinds = []string{"record", "annotate", "stage", "attest"}
 
 func c17IsGitCase(idx uint64) bool { return idx%16 < 4 }
 func c17GitSeq(idx uint64) uint64  { return (idx/16)*4 + idx%16 }
@@ -32,8 +35,8 @@ func (c17) generateGit(r *core.Rand, tier string, idx uint64) *core.Case {
 	seq := c17GitSeq(idx)
 	c := &core.Case{Property: "C17", Engine: "git", Config: map[string]int{}, Flags: map[string]bool{}}
 	c.Config["prefix"] = int(seq % 3) // entries already on the log: 0 (first entry race), 1, 2
-	a := r.Weighted([]int{5, 2, 3})
-	bk := r.Weighted([]int{5, 2, 3})
+	a := r.Weighted([]int{5, 2, 3, 2})
+	bk := r.Weighted([]int{5, 2, 3, 2})
 	if c.Config["prefix"] == 0 {
 		if a == 1 {
 			a = 0
@@ -42,8 +45,8 @@ func (c17) generateGit(r *core.Rand, tier string, idx uint64) *core.Case {
 			bk = 0
 		}
 	}
-	if a == 2 && bk == 2 {
-		bk = 0 // one policy writer at most (they would be the same person)
+	if a == bk && a >= 2 {
+		bk = 0 // one policy writer and one approver at most
 	}
 	c.Config["opA"], c.Config["opB"] = a, bk
 	c.Config["preemptAt"] = int(seq / 3 % 16) // swept, not drawn: every pre-emption point of every log state comes round
@@ -135,6 +138,9 @@ func (d c17) executeGit(c *core.Case) (res *core.Result) {
 			w.target = prefixIDs[i%len(prefixIDs)]
 		case "stage":
 			w.ref = policy.PolicyStagingRef
+		case "attest":
+			w.ref = attestations.Ref
+			w.target = mk("approved-" + w.name)
 		}
 	}
 	run := func(w *c17gitWriter) {
@@ -147,6 +153,31 @@ func (d c17) executeGit(c *core.Case) (res *core.Result) {
 		case "stage":
 			st := &policy.State{Metadata: md}
 			w.err = st.Commit(w.gi, "stage by "+w.name, true, false)
+		case "attest":
+			w.err = func() error {
+				atts, err := attestations.LoadCurrentAttestations(w.gi)
+				if err != nil {
+					return err
+				}
+				tree := repo.TreeOf(w.target)
+				zero := strings.Repeat("0", 40)
+				stmt, err := attestations.NewReferenceAuthorizationForCommit("refs/heads/approved", zero, tree)
+				if err != nil {
+					return err
+				}
+				env, err := dsse.CreateEnvelope(stmt)
+				if err != nil {
+					return err
+				}
+				env, err = dsse.SignEnvelope(context.Background(), env, world.GetKey(1).DSSE())
+				if err != nil {
+					return err
+				}
+				if err := atts.SetReferenceAuthorization(w.gi, env, "refs/heads/approved", zero, tree); err != nil {
+					return err
+				}
+				return atts.Commit(w.gi, "approval by "+w.name, true, false)
+			}()
 		}
 	}
 	A, B := writers[0], writers[1]
@@ -248,6 +279,10 @@ func (d c17) executeGit(c *core.Case) (res *core.Result) {
 				if e.Kind == "reference" && e.Ref == policy.PolicyStagingRef {
 					n++
 				}
+			case "attest":
+				if e.Kind == "reference" && e.Ref == attestations.Ref {
+					n++
+				}
 			}
 		}
 		switch {
@@ -264,21 +299,21 @@ func (d c17) executeGit(c *core.Case) (res *core.Result) {
 	}
 	// the staging ref matches its latest entry (or is as before when staging failed)
 	for _, w := range writers {
-		if w.kind != "stage" {
+		if w.kind != "stage" && w.kind != "attest" {
 			continue
 		}
-		tip := repo.GetRef(policy.PolicyStagingRef)
+		tip := repo.GetRef(w.ref)
 		latest := ""
 		for _, e := range after {
-			if e.Kind == "reference" && e.Ref == policy.PolicyStagingRef {
+			if e.Kind == "reference" && e.Ref == w.ref {
 				latest = e.Target
 			}
 		}
 		if tip != latest {
-			viol("ref-inconsistent", fmt.Sprintf("refs/gittuf/policy-staging is %s but its latest log entry records %s (staging returned %v)", short10(tip), short10(latest), errStr(w.err)))
+			viol("ref-inconsistent", fmt.Sprintf("%s is %s but its latest log entry records %s (the operation returned %v)", w.ref, short10(tip), short10(latest), errStr(w.err)))
 		}
-		if w.err != nil && tip != refsBefore[policy.PolicyStagingRef] {
-			viol("ref-inconsistent", fmt.Sprintf("staging failed (%v) but refs/gittuf/policy-staging moved", w.err))
+		if w.err != nil && tip != refsBefore[w.ref] {
+			viol("ref-inconsistent", fmt.Sprintf("the operation failed (%v) but %s moved", w.err, w.ref))
 		}
 	}
 	// the process-wide caches must not have kept an entry that is not on the log
